@@ -22,6 +22,10 @@ func keyName(k int) string {
 	switch {
 	case k == 1:
 		return "" // the empty key
+	case k == 7:
+		return "caf\xc3" // not valid UTF-8 (a truncated sequence): a key is a string of bytes
+	case k == 11:
+		return "caf\xff"
 	case k%5 == 0:
 		return keyName(k-1) + ".t" // looks like a path into the map that the neighbouring key may hold; it is a key like any other
 	case k%3 == 0:
@@ -34,6 +38,12 @@ func keyName(k int) string {
 func keyTok(s string) int {
 	if s == "" {
 		return 1
+	}
+	if s == "caf\xc3" {
+		return 7
+	}
+	if s == "caf\xff" {
+		return 11
 	}
 	if strings.HasSuffix(s, ".t") {
 		if b := keyTok(strings.TrimSuffix(s, ".t")); b > 0 {
@@ -491,9 +501,50 @@ func genChurnSeq(r *rand.Rand) []seqStep {
 	return steps
 }
 
+// genBulkSeq: a few keys are set, then a Merge brings in tens to a thousand keys at once - some of them the ones that
+// exist - and the store is asked about old and new keys; then the same again on top (a Merge is key-wise overwriting
+// whatever its size and whatever the size of the store)
+func genBulkSeq(r *rand.Rand) []seqStep {
+	n := []int{64, 65, 63, 128, 200, 256, 257, 300, 1024}[r.Intn(9)]
+	var steps []seqStep
+	ask := func(k int) {
+		steps = append(steps, seqStep{Ev: "op", Op: storeOp{Op: "get", K: k}}, seqStep{Ev: "op", Op: storeOp{Op: "has", K: k}})
+	}
+	pre := 1 + r.Intn(6)
+	var old []int
+	for i := 0; i < pre; i++ {
+		k := 1 + r.Intn(n+8)
+		old = append(old, k)
+		steps = append(steps, seqStep{Ev: "op", Op: storeOp{Op: "set", K: k, V: 30 + i}})
+	}
+	for round := 0; round < 2; round++ {
+		var o storeOp
+		o.Op = "merge"
+		for k := 1; k <= n; k++ {
+			o.M = append(o.M, [2]int{k, 1 + (k+round)%25})
+		}
+		steps = append(steps, seqStep{Ev: "op", Op: o})
+		for _, k := range old {
+			ask(k)
+		}
+		ask(1)
+		ask(n)
+		ask(n + 1)
+		steps = append(steps, seqStep{Ev: "op", Op: storeOp{Op: "len"}})
+		if round == 0 && r.Intn(2) == 0 {
+			steps = append(steps, seqStep{Ev: "op", Op: storeOp{Op: "clear"}}, seqStep{Ev: "op", Op: storeOp{Op: "set", K: 2, V: 39}})
+			old = append(old, 2)
+		}
+	}
+	return steps
+}
+
 func genStoreSeq(r *rand.Rand) []seqStep {
 	if r.Intn(5) == 0 {
 		return genChurnSeq(r)
+	}
+	if r.Intn(25) == 0 {
+		return genBulkSeq(r)
 	}
 	n := 1 + r.Intn(200)
 	nKeys := 2 + r.Intn(11)
